@@ -38,7 +38,7 @@ def ep_programs(ctx):
     for i, ov in enumerate(chosen):
         rng = ctx.rng("epcfg", i)
         migrate = bool(i % 2) if ctx.quick else rng.random() < 0.5
-        reply = [None, "legacy", "table"][i % 3]
+        reply = [None, "legacy", "table", "feature-only"][i % 4]
         if "reply" in ov and reply is None and rng.random() < 0.5:
             reply = "table"
         p = spec.gen_ep_config_program(rng, f"e{i:03d}", ov, migrate, reply, True)
